@@ -246,7 +246,7 @@ func facts(repo, goroot string) []fact {
 	if fd := findFunc(auth, "Authority", "AuthorizeRenewToken"); fd == nil {
 		add("renewTokenCalls", bad("not found"))
 	} else {
-		add("renewTokenCalls", join(callNames(fd.Body, set("ParseX5cInsecure", "Claims", "LoadProvisionerByCertificate", "UseToken",
+		add("renewTokenCalls", join(callNames(fd.Body, set("ParseX5cInsecure", "Claims", "LoadProvisionerByCertificate", "UseToken", "useRenewToken",
 			"ValidateWithLeeway", "matchesAudience", "isRAProvisioner", "GetName"))))
 	}
 	if fd := findFunc(auth, "Authority", "LoadProvisionerByCertificate"); fd == nil {
